@@ -133,9 +133,14 @@ class ColumnBackend(ArraySchemaBackend):
             else:
                 if getattr(schema, "drop_invalid_rows", False):
                     # replace the check_obj with the validated
-                    check_obj = validate_column(
+                    validated_obj = validate_column(
                         check_obj, column_name, return_check_obj=True
                     )
+                    if validated_obj is None:
+                        # errors that cannot be resolved by dropping rows
+                        # were collected
+                        continue
+                    check_obj = validated_obj
 
                 validated_column = validate_column(
                     check_obj,
